@@ -187,6 +187,11 @@ func c07SlashOracle(x *engine.Exec, ref *pendRef) []engine.Failure {
 			if explainedByShareBurn(p, prev, next, gd, recTotal[k], burnSum(p.V, p.Denom)) || absRat(ratSub(newVal, want2)).Cmp(tl) <= 0 {
 				c = "redelegation-record-merged-sources"
 			}
+			// after a restart from an export the merged record carries its first source only: a slash of the other
+			// source finds no index key and cuts nothing (same root cause, K-C18-merged-redelegation-record)
+			if c == "" && ref.RestartedWithMergedRecord && absRat(ratSub(newVal, base)).Cmp(tl) <= 0 {
+				c = "redelegation-record-merged-sources"
+			}
 		case explainedByShareBurn(p, prev, next, gd, cut, burnSum(p.V, p.Denom)):
 			c = "redelegation-slash-diluted-by-own-share"
 		}
@@ -263,9 +268,17 @@ func c07Step(x *engine.Exec) []engine.Failure {
 		if len(x.Prev.Snap().Unb) > 0 {
 			x.Cnt.Inc("asset.deleted_with_pending_unbondings")
 		}
+	case world.KReimport:
+		if x.Res.Err != nil {
+			return append(out, fail("restart", "error", "genesis export/import failed: %v", x.Res.Err))
+		}
+		ref.onRestart()
 	case world.KSlash:
 		if x.Res.Err != nil {
 			x.Cnt.Inc("slash.callback_error")
+		}
+		if x.Prev.Used[ClsEnv] > 0 {
+			x.Cnt.Inc("slash.after_restart")
 		}
 		for _, u := range ref.Unb {
 			if _, ok := prev.Assets[u.Denom]; !ok && u.V == x.Op.V {
@@ -379,10 +392,31 @@ func init() {
 					Required: []string{"slash.hit_pending_unbonding", "slash.hit_pending_redelegation", "redelegation.destination_checked", "redelegation.fan_in_same_block", "slash.at_completion_instant", "slash.after_completion_before_payout", "slash.with_pending_unbonding_of_deleted_asset", "slash.of_validator_everybody_left_with_pending_unbondings"},
 				}
 			}
-			if tier == "thorough" {
-				return []*engine.Scenario{mk("c07-packing", []int{4, 2, 0, 2, 1}, 8)}
+			// the same oracle on a chain restarted from a genesis export while entries are pending: the packed seed has one
+			// delegator leaving one validator in two denoms and two validators in one block, a second delegator in the same
+			// block, a fan-in of redelegations; InitGenesis rebuilds every index the slash walks
+			restart := func(budgets []int, depth int) *engine.Scenario {
+				sc := mk("c07-restart", budgets, depth)
+				sc.Seeds = [][]world.Op{append(append([]world.Op{}, c07Seed...), opBlock(1),
+					opUnd(0, 0, "aaa", "300"), opUnd(0, 0, "bbb", "200"), opUnd(0, 1, "aaa", "100"), opUnd(1, 0, "aaa", "50"),
+					opRed(0, 0, 2, "aaa", "70"), opRed(0, 1, 2, "aaa", "30"), opRed(1, 0, 2, "aaa", "20"))}
+				inner := c07Ops(tier)
+				sc.Ops = func(n *engine.Node) []world.Op {
+					ops := []world.Op{{K: world.KReimport, Class: ClsEnv}}
+					for _, o := range inner(n) {
+						if o.K == world.KSlash || o.K == world.KBlock || (o.K == world.KUndelegate && o.D == 0 && o.V == 0) {
+							ops = append(ops, o)
+						}
+					}
+					return ops
+				}
+				sc.Required = []string{"slash.hit_pending_unbonding", "slash.hit_pending_redelegation", "slash.after_restart"}
+				return sc
 			}
-			return []*engine.Scenario{mk("c07-packing", []int{3, 1, 0, 2, 1}, 5)}
+			if tier == "thorough" {
+				return []*engine.Scenario{mk("c07-packing", []int{4, 2, 0, 2, 1}, 8), restart([]int{2, 2, 2, 3, 0}, 7)}
+			}
+			return []*engine.Scenario{mk("c07-packing", []int{3, 1, 0, 2, 1}, 5), restart([]int{2, 1, 1, 3, 0}, 7)}
 		},
 		Assumptions: []string{
 			"seed: D0 staked on V0,V1,V2 (aaa) and V0,V1 (bbb), D1 on V0,V2 (aaa); take rate 0 so that share prices move only through slashes",
